@@ -552,6 +552,8 @@ func c04HTTP(c *ctx, corpus []string, n int, next func(int) string) {
 		mk(sutOpts{mode: "sso-server", ingresses: []string{"http://sso.example.com"}, ssoDomain: "example.com", ssoDefaultURL: "http://default.example.com/start"}, []string{"http://sso.example.com"}, []string{"http://default.example.com/start"}),
 		// operator URLs WITHOUT a path: a look-alike may then extend the host itself (default.example.com -> default.example.com.evil.net)
 		mk(sutOpts{mode: "sso-server", ingresses: []string{"http://login.example.com"}, ssoDomain: ".example.com", ssoDefaultURL: "http://www.example.com"}, []string{"http://login.example.com"}, []string{"http://www.example.com"}),
+		// the operator's default redirect URL lies OUTSIDE the SSO domain (a corporate landing page): being the default does not make its host - let alone its sub-domains - a valid target
+		mk(sutOpts{mode: "sso-server", ingresses: []string{"http://sso.apps.example.org"}, ssoDomain: "apps.example.org", ssoDefaultURL: "http://example.org/landing"}, []string{"http://sso.apps.example.org"}, []string{"http://example.org/landing"}),
 		mk(sutOpts{mode: "sso-proxy", ingresses: []string{"http://app.example.com"}, ssoServerURL: "http://sso.example.com", autoLogin: true}, []string{"http://app.example.com"}, []string{"http://sso.example.com"}),
 		mk(sutOpts{mode: "sso-proxy", ingresses: []string{"http://app.example.com/sub"}, ssoServerURL: "http://sso.example.com/base", autoLogin: true}, []string{"http://app.example.com/sub"}, []string{"http://sso.example.com"}),
 	}
@@ -640,7 +642,7 @@ func c04HTTP(c *ctx, corpus []string, n int, next func(int) string) {
 			}
 			ho := ou.Scheme + "://" + ou.Host
 			for _, t := range []string{ot + ".evil.net/x", ot + "@evil.net/x", ot + "evil.net/x", ot + "%40evil.net/x", ot + "\\@evil.net/x", ot + ":x@evil.net/", ot + "/../../x", ot + "/..//evil.net",
-				ho + ".evil.net/", ho + "@evil.net/", ho + ":80@evil.net/", "//evil.net/" + o, "https://evil.net/?" + o, "https://evil.net/#" + o, "https://evil.net/" + ou.Host, "https://evil.net\\@" + ou.Host + "/",
+				ho + ".evil.net/", ho + "@evil.net/", ou.Scheme + "://evil." + ou.Host + "/phish", ou.Scheme + "://" + ou.Host + "/other/path", ho + ":80@evil.net/", "//evil.net/" + o, "https://evil.net/?" + o, "https://evil.net/#" + o, "https://evil.net/" + ou.Host, "https://evil.net\\@" + ou.Host + "/",
 				o, ot + "/", ot + "/inside?x=1", strings.ToUpper(ho) + "/x", ho + ":65536/", ho + ":/x", strings.Replace(ho, "://", ":/", 1) + "/x", strings.Replace(ho, "http://", "https://", 1) + "/x"} {
 				probe(st, k, t)
 				k++
